@@ -5,6 +5,7 @@ import (
 	"strings"
 
 	"golang.org/x/exp/maps"
+	"golang.org/x/exp/slices"
 )
 
 /**
@@ -850,7 +851,8 @@ func (m *stringMap) Get(k Value) (Value, bool) {
 
 func (m *stringMap) Set(k, v Value) {
 	key := string(k.value.(stringT))
-	if _, ok := m.data[key]; !ok {
+	// a deleted key stays in m.keys until the next compaction: do not list it twice
+	if _, ok := m.data[key]; !ok && (len(m.keys) == len(m.data) || !slices.Contains(m.keys, key)) {
 		m.keys = append(m.keys, key)
 	}
 	m.data[key] = v.assign(m.valueType)
@@ -930,7 +932,8 @@ func (m *numericMap) Get(k Value) (Value, bool) {
 
 func (m *numericMap) Set(k, v Value) {
 	key := k.num
-	if _, ok := m.data[key]; !ok {
+	// a deleted key stays in m.keys until the next compaction: do not list it twice
+	if _, ok := m.data[key]; !ok && (len(m.keys) == len(m.data) || !slices.Contains(m.keys, key)) {
 		m.keys = append(m.keys, key)
 	}
 	m.data[key] = v.assign(m.valueType)
